@@ -66,6 +66,10 @@ CLAIMED["C16"] = ("partial: the parser/codegen/literal pieces proved; compositio
   "comment_skipped, mnemonic_case, asciiLower_idem, index_case, hex_digit_case, include_is_inline, spaces_ignored. Tie: relayout twins (random compositions of every listed presentation change at every applicable position, plus moving a run of statements into an included file) of generated programs and of the repository samples: bytes, offsets and all label values equal; relayouted texts also run through the model.",
   "The full printer/scanner round-trip theorem (C16_scan_render of DESIGN section 6) is not proved. A blank between an inner index register and its closing bracket `(e,s )` is not among the listed changes (the code rejects it); see DESIGN section 8.")
 
+CLAIMED["C14"] = ("partial: decision logic proved; process exit and logging by correspondence", "6/C14", "Lean 4 proof by exhaustive case analysis of the front-end decision logic (4 entry points x 5 outcome classes of the core) tied to the pipeline model by coreClassOf + fault-injection correspondence through the real entry points (x816 as a subprocess)",
+  "success_iff_ok, announce_only_ok, failure_reaches_caller, cli_status, ok_iff_output. Tie: stream S8-status: 16 definite error kinds injected at statement positions of generated programs, through the string API, Program.assemble, Program.assemble_as_patch and the x816 command line; reported status/announcement compared with the model and checked against the in-memory outcome (oracle).",
+  "argparse, file creation, sys.exit and logging are exercised, not modelled. A raise from a file API counts as failure reaching the caller.")
+
 NOT_YET = {}
 
 def main():
